@@ -201,7 +201,19 @@ func runAEAD(g *gctx, gr group) {
 				rec.Count("roundtrip.aead", 1)
 			}
 		})
+		good := path == "open" && c.err == nil && c.panicV == nil
 		c.judge()
+		if good {
+			// after the finalizers: a new AEAD over the same key buffer must still open the same message
+			keepRedo("aescbcaead.Open "+v.name, func() bool {
+				a, err := v.ctor(key.s())
+				if err != nil {
+					return false
+				}
+				out, err := a.Open(nil, nonce.s(), cta.s(), ada.s())
+				return err == nil && bytes.Equal(out, pt)
+			})
+		}
 	}
 	open("open", "ok", sealed, nonceBytes, ad, g.round+2)
 	open("open-tagflip", "err", flip(sealed, len(sealed)-1-g.round%v.tag), nonceBytes, ad, g.round+3)
